@@ -244,10 +244,13 @@ pub fn run_worker(args: &Args, tier: &str, seed: u64) -> Report {
     let lean = cfg!(miri) || args.has("--lean");
     let ctx = if fam == "mutations" { Ctx::with_pool(tier, seed, !lean) } else { Ctx { tier: tier.to_string(), seed, pool: vec![] } };
     let total = ctx.count(&fam);
-    // the case loop runs on a thread with the default main-thread stack size (8 MiB)
+    // the case loop runs on a thread with the default main-thread stack size (8 MiB); the chains family on the
+    // default size of spawned threads and async worker threads (2 MiB): nothing in it is nested, so a correct
+    // iterative parser needs no stack proportional to the input
+    let stack = if fam == "chains" { 2 << 20 } else { 8 << 20 };
     let rep = std::thread::scope(|s| {
         std::thread::Builder::new()
-            .stack_size(8 << 20)
+            .stack_size(stack)
             .spawn_scoped(s, || {
                 let mut rep = rep;
                 let mut idx = shard;
@@ -276,6 +279,10 @@ pub fn run_worker(args: &Args, tier: &str, seed: u64) -> Report {
                     }
                     if fam == "bytes12" {
                         let (tag, body) = corpus::bytes12_params(idx);
+                        one_value(&mut rep, &fam, idx, &label, tag, body, &replay);
+                    }
+                    if fam == "chains" {
+                        let (tag, body, _) = corpus::chains_params(idx);
                         one_value(&mut rep, &fam, idx, &label, tag, body, &replay);
                     }
                     if fam == "withlang" {
